@@ -68,7 +68,10 @@ class C17(Prop):
 
     def exhaustive(self, tier: str):
         if tier != "thorough":
-            return []
+            # nothing merged with nothing, at the top and inside
+            es: list[Any] = [None, {}, {"a": {}}, {"a": {}, "b": 1}, {"a": {"b": {}}}]
+            return [{"kind": "merge", "a": None if x is None else to_cfg(x), "b": None if y is None else to_cfg(y),
+                     "origin": "empties"} for x in es for y in es]
         ds = all_small_dicts(["a", "b"], 3)
         return [{"kind": "merge", "a": to_cfg(x), "b": to_cfg(y), "origin": "exhaustive<=3nodes"} for x in ds for y in ds]
 
@@ -90,12 +93,27 @@ class C17(Prop):
             return {"raised": repr(e), "out": {"o": "raised " + type(e).__name__}, "overlap": None, "is_dict": False,
                     "args_unchanged": a == a0 and b == b0, "fresh": True, "expected": to_cfg(spec_merge(a0, b0))}
         overlap = _overlapping_calls(merge_config, a, b) if case.get("threads") else None
+        out = to_cfg(res)
+        is_dict = type(res) is dict
+        # the result is the caller's: whatever the caller does to the dicts the merge made (the result and the merged
+        # mappings inside it - not the mappings it took over from one side) is nobody else's business, in particular not
+        # that of a later call on equal arguments
+        again_ok = True
+        args_unchanged = a == a0 and b == b0 and _same_types(a, a0) and _same_types(b, b0)
+        fresh = res is not a and res is not b
+        if is_dict and fresh:
+            _scribble(res, a, b, _dict_ids(a) | _dict_ids(b))
+            try:
+                again_ok = to_cfg(merge_config(copy.deepcopy(a0), copy.deepcopy(b0))) == to_cfg(spec_merge(a0, b0))
+            except Exception:  # noqa: BLE001
+                again_ok = False
         return {
+            "again_ok": again_ok,
             "overlap": None if overlap is None else [to_cfg(r) if isinstance(r, dict) else {"o": repr(r)} for r in overlap],
-            "out": to_cfg(res),
-            "is_dict": type(res) is dict,
-            "args_unchanged": a == a0 and b == b0 and _same_types(a, a0) and _same_types(b, b0),
-            "fresh": res is not a and res is not b,
+            "out": out,
+            "is_dict": is_dict,
+            "args_unchanged": args_unchanged,
+            "fresh": fresh,
             "expected": to_cfg(spec_merge(a0, b0)),
         }
 
@@ -117,6 +135,9 @@ class C17(Prop):
             fails.append("merge_config modified one of its arguments")
         if not impl["fresh"] or not impl["is_dict"]:
             fails.append("merge_config did not return a new dict")
+        if impl.get("again_ok") is False:
+            fails.append("after the caller had modified the dict it was given, a second call on equal arguments did not return "
+                         "the documented merge: results of different calls share state")
         if impl.get("overlap") and any(r != impl["expected"] for r in impl["overlap"]):
             fails.append("two calls on the same arguments, one made (by another thread) while the other was inside its "
                          "nested merge, do not both return the documented merge: the function keeps state between calls")
@@ -152,6 +173,22 @@ class C17(Prop):
             if c is None:
                 continue
             yield from ({**case, side: s} for s in _shrink_cfg(c))
+
+
+def _dict_ids(x: Any) -> set[int]:
+    return set() if not isinstance(x, dict) else {id(x)}.union(*(_dict_ids(v) for v in x.values()))
+
+
+def _scribble(res: dict[str, Any], a: Any, b: Any, theirs: set[int]) -> None:
+    """Add a key to every dict the merge made: the result, and below it every mapping at a key where both sides had a
+    mapping (what sits at any other key may be an argument's own mapping, which the caller has no business changing -
+    and so may be, for all the property says, a mapping at such a key, if the function handed one of the two on)."""
+    if id(res) in theirs:
+        return
+    res["__scribbled__"] = True
+    for k, v in list(res.items()):
+        if isinstance(v, dict) and isinstance((a or {}).get(k), dict) and isinstance((b or {}).get(k), dict):
+            _scribble(v, a[k], b[k], theirs)
 
 
 def _overlapping_calls(merge_config: Any, a: Any, b: Any) -> list[Any] | None:
